@@ -430,7 +430,7 @@ int main(int argc, char **argv) {
     munmap(HB, HBCAP);
     mc_parallel("L6: 8 local-part shapes around every byte 0x01-0xFF x 24 domain shapes", 255, l6_shard, NULL);
     if (corpus_load()) return 2;
-    { static const int PH[] = { CP_LONGIDN, CP_ALTDOT, CP_LABELLEN, CP_MAXLIT, CP_LPXDOM, CP_WHOLEDOM, CP_DEPTH, CP_EMBED, CP_SHORTLAB, CP_POSN, CP_WRAP };
+    { static const int PH[] = { CP_LONGIDN, CP_ALTDOT, CP_LABELLEN, CP_MAXLIT, CP_LPXDOM, CP_WHOLEDOM, CP_DEPTH, CP_EMBED, CP_SHORTLAB, CP_POSN, CP_WRAP, CP_EDIT, CP_LITERAL };
       for (unsigned i = 0; i < sizeof PH / sizeof PH[0]; i++) { L5PH = PH[i]; char nm5[80]; snprintf(nm5, sizeof nm5, "L5: %.60s", corpus_name(L5PH)); mc_parallel(nm5, corpus_shards(L5PH), l5_shard, NULL); } }
     int N = mc_thorough ? 8 : 6;
     memset(&L1E, 0, sizeof L1E); L1E.A = SIGC; L1E.nA = NSIGC; L1E.N = N; L1E.k = 3; L1E.fn = l1_cb;
